@@ -143,6 +143,23 @@ prop("C16", "exploration", "reference network device with uniquely numbered fram
      "frame injection bursts in arbitrary buffer order (frame length 0, 1, 1514, max, random), receive, recycle in arbitrary order, blocking send, raw receive_begin/poll/complete, receive_wait (device injects from the spin hook), raw transmit_begin/poll/complete. Non-trivial iff at least one received frame was compared; distinct by hash of (configuration, operation list).",
      [stage("checked")], [stage("checked"), stage("asan", scale=150, optional=True)])
 
+prop("C17", "exploration", "reference vsock peer holding both credit windows and both byte streams in 64-bit arithmetic; every transmitted header decoded",
+     "The real VsockConnectionManager/VirtIOSocket run against a reference peer: every packet on the transmit queue is decoded and checked (addressing, length, stream type, buf_alloc = configured capacity, fwd_cnt = bytes the application has read, advertised free space never above real free space); "
+     "a send must succeed iff it fits the free space the peer last advertised (64-bit shadow of the 32-bit counters), otherwise it must be refused with exactly one credit request per starvation episode; the credit-respecting peer sends position-coded streams and everything read back is compared byte-wise; "
+     "dedicated runs push more than 4 GiB through one connection in each direction so that tx_cnt and fwd_cnt wrap (transmit direction in every run, receive direction in thorough).",
+     DRV_NOTE + " The peer's window may shrink, but never below what is still in flight after its own consumption. Situations the property leaves open (data before the response, request on an existing connection) are not generated.",
+     "a case is one connection manager (per-connection capacity in {1,2,7,16,100,512,1024,4096,65536}; RX buffer 128/512 bytes; INDIRECT_DESC x EVENT_IDX; transports model/MMIO/PCI; device policy on-notify/polling/eager) driven through 600 (thorough 3000) steps of connect, listen, peer requests, sends of 1..4096 bytes, peer data within the advertised credit, recv of 0..2*capacity+1 bytes, "
+     "peer credit updates with partial consumption and changed windows, credit requests, shutdown/reset, packets for unknown connections and malformed packets; plus case 0 = 4.5 GiB transmit-counter wrap run and (thorough) case 1 = 4.5 GiB receive/forward-counter wrap run on 64 KiB receive buffers. Non-trivial iff at least one packet was polled or stream byte checked; distinct by hash of (configuration, operation list, case).",
+     [stage("checked")], [stage("checked"), stage("release", scale=100)])
+
+prop("C18", "exploration", "lock-step reference connection table + posted-receive-buffer count after every poll",
+     "The same co-simulation with a state-focused workload: a reference table keyed by (peer cid, peer port, local port) predicts for every polled packet the event reported and the exact packets the driver must send (response on listening ports, reset and no event otherwise, nothing for unknown or foreign-cid tuples, credit update on credit request, reset when a shut-down connection is drained), "
+     "local operations on unknown connections must fail with NotConnected and duplicate connects with ConnectionExists, effects must stay confined to the addressed connection (every other connection's stream and credit state is still checked afterwards), and after every poll - whatever the packet was, including malformed ones - the device must see QUEUE_SIZE receive buffers posted.",
+     DRV_NOTE + " Unspecified situations (request on an existing connection, reset with data buffered, data before the response) are not generated.",
+     "a case is one connection manager with 4 peers x 4 local ports driven through 600 (thorough 3000) steps over all local operations (listen, unlisten, connect, send, recv, shutdown, force_close, update_credit) and all peer packet kinds incl. op 0, op > 7, control packets with data, truncated headers (used length < 44), length field > used length, wrong destination cid. "
+     "Non-trivial iff at least one packet was polled; distinct by hash of (configuration, operation list, case).",
+     [stage("checked")], [stage("checked"), stage("asan", scale=150, optional=True)])
+
 NOT_YET = {}
 import re
 props = [json.loads(l) for l in open(os.path.join(ROOT, "properties.jsonl"))]
@@ -190,7 +207,7 @@ def main():
     print("wrote plan.json, MANIFEST.json:", len(checks), "checks,", len(NOT_YET), "not_applicable")
 
 HOOK_COMMITS = ["3c7b69a"]
-FIX_COMMITS = ["0598fcf", "bc247e1", "811bf5f", "d0efe8d", "71da244", "db6be61", "1b3383f", "56251f9", "86dc6a3"]
+FIX_COMMITS = ["0598fcf", "bc247e1", "811bf5f", "d0efe8d", "71da244", "db6be61", "1b3383f", "56251f9", "86dc6a3", "74ba7fd"]
 
 if __name__ == "__main__":
     main()
